@@ -214,19 +214,37 @@ func extractC18(p *Program, w *Section) {
 			for _, d := range f.AST.Decls {
 				fn := declName(d)
 				inInit := isInit(d)
+				ctx := "" // hash of the enclosing declaration, computed when a site needs it
+				declHash := func() string {
+					if ctx == "" {
+						var n ast.Node = d
+						switch d := d.(type) { // doc comments are not part of the hash
+						case *ast.FuncDecl:
+							c := *d
+							c.Doc = nil
+							n = &c
+						case *ast.GenDecl:
+							c := *d
+							c.Doc = nil
+							n = &c
+						}
+						ctx = stmtHash(p.Fset, n)
+					}
+					return ctx
+				}
 				ast.Inspect(d, func(n ast.Node) bool {
 					switch n := n.(type) {
 					case *ast.RangeStmt:
 						kind := classifyRange(pkg, f.AST, n.X)
 						if p.Verbose && kind != rangeOther {
-							fmt.Fprintf(os.Stderr, "%s:%d\t%s\t%s\t%s\n", f.Rel, p.Fset.Position(n.Pos()).Line, fn,
-								stmtHash(p.Fset, n), map[rangeKind]string{rangeMap: "map", rangeUnknown: "UNRESOLVED"}[kind])
+							fmt.Fprintf(os.Stderr, "%s:%d\t%s\t%s\tctx=%s\t%s\n", f.Rel, p.Fset.Position(n.Pos()).Line, fn,
+								stmtHash(p.Fset, n), declHash(), map[rangeKind]string{rangeMap: "map", rangeUnknown: "UNRESOLVED"}[kind])
 						}
 						switch kind {
 						case rangeMap:
-							mapSites = append(mapSites, leanRec(f.Rel, fn, stmtHash(p.Fset, n), ""))
+							mapSites = append(mapSites, leanRec(f.Rel, fn, stmtHash(p.Fset, n), "", declHash()))
 						case rangeUnknown:
-							unresolved = append(unresolved, leanRec(f.Rel, fn, stmtHash(p.Fset, n), ""))
+							unresolved = append(unresolved, leanRec(f.Rel, fn, stmtHash(p.Fset, n), "", declHash()))
 						}
 					case *ast.GoStmt:
 						goSites = append(goSites, leanRec(f.Rel, fn, "go", stmtHash(p.Fset, n)))
@@ -264,7 +282,7 @@ func extractC18(p *Program, w *Section) {
 			}
 		}
 	}
-	w.Comment("`for … range X` with X of map type; ⟨file, enclosing declaration, hash of the loop, kind (unused)⟩.")
+	w.Comment("`for … range X` with X of map type; ⟨file, enclosing declaration, hash of the loop, kind (unused), hash of the declaration⟩.")
 	w.Def("mapRangeSites", "MapRangeSite", mapSites)
 	w.Comment("range statements whose operand go/types could not type (treated as uncovered).")
 	w.Def("unresolvedRangeSites", "MapRangeSite", unresolved)
